@@ -2,7 +2,7 @@
   `rlwe.Evaluator.DecomposeNTT` (core/rlwe/evaluator_gadget_product.go), twin `Decomp.decomposeNTT`:
   the digits of `DecomposeAndSplit` moved to the NTT domain.
 
-  * `nttStd_unreduced`: for `N ≥ 16` the reduced forward NTT of an UNREDUCED row (entries `< M`, `M + 4q ≤ 2^64`) is the
+  * `nttStd_unreduced`: for every degree `N = 2^K` the reduced forward NTT of an UNREDUCED row (entries `< M`, `M + 4q ≤ 2^64`) is the
     NTT of the row reduced modulo `q` — the rows `DecomposeAndSplit` writes are not reduced (`< 3q`, resp. `≤ q`);
   * `decomposeNTT_rows`: every digit of `decomposeNTT` is, row by row, the NTT of the residues of the limbs of
     `decomposeAndSplit` (rows inside the digit's own moduli: copied from the NTT-domain input), so
@@ -16,13 +16,13 @@ set_option linter.unusedVariables false
 namespace Lattigo.Decomp
 open Lattigo Lattigo.Gen Lattigo.Scaling Lattigo.BasisExt Lattigo.NTT
 
-/-- **NTT of an unreduced row** (`N = 2^K ≥ 16`): `nttStd T a = nttStd T (a mod q)` for entries `< M`,
+/-- **NTT of an unreduced row** (every `N = 2^K`): `nttStd T a = nttStd T (a mod q)` for entries `< M`,
 `M + 4q ≤ 2^64`. -/
-theorem nttStd_unreduced {T : Tables} {K : ℕ} (hT : Valid T K) (hK : 4 ≤ K) (M : ℕ) (hM : M + 4 * T.q ≤ W)
+theorem nttStd_unreduced {T : Tables} {K : ℕ} (hT : Valid T K) (M : ℕ) (hM : M + 4 * T.q ≤ W)
     (a : List ℕ) (ha : ∀ x ∈ a, x < M) : nttStd T a = nttStd T (a.map (· % T.q)) := by
   have : Fact T.q.Prime := ⟨hT.prime⟩
   have hq0 := hT.q_pos
-  obtain ⟨hc, hr⟩ := nttCoreLazy_big hT hK M hM a ha
+  obtain ⟨hc, hr⟩ := nttCoreLazy_big_all hT M hM a ha
   obtain ⟨hrc, hrlt⟩ := nttStd_cast hT (a.map (· % T.q)) (by
     intro x hx; rw [List.mem_map] at hx; obtain ⟨y, _, rfl⟩ := hx; exact Nat.mod_lt _ hq0)
   have hW : ∀ y ∈ nttCoreLazy T a, y < W := by
@@ -104,10 +104,10 @@ theorem decomposeNTT_some (TQ TP : Tabs) (Q P : List ℕ) (levelQ levelP nbPi si
   intro d hd
   rw [h d (List.mem_range.mp hd)]
 
-/-- the rows of a digit of `DecomposeNTT`, semantically (`N = 2^K ≥ 16`): outside the digit's own moduli the row is
+/-- the rows of a digit of `DecomposeNTT`, semantically (every `N = 2^K`): outside the digit's own moduli the row is
 the (reduced) forward NTT of the residues `limb mod q_x` of the limbs `DecomposeAndSplit` wrote (`< M`, unreduced),
 so `INTT` of it is exactly those residues — the residues of the digit value by `decompose_*_limbs`. -/
-theorem dnOut_rows (TQ TP : Tabs) (Q P : List ℕ) (levelQ levelP nbPi d K : ℕ) (hK : 4 ≤ K) (ntt a b : Rows)
+theorem dnOut_rows (TQ TP : Tabs) (Q P : List ℕ) (levelQ levelP nbPi d K : ℕ) (ntt a b : Rows)
     (hTQ : ∀ i, i ≤ levelQ → Valid (tab TQ i) K ∧ (tab TQ i).q = Q.getD i 0)
     (hTP : ∀ j, j ≤ levelP → Valid (tab TP j) K ∧ (tab TP j).q = P.getD j 0)
     (M : ℕ → ℕ)
@@ -128,12 +128,12 @@ theorem dnOut_rows (TQ TP : Tabs) (Q P : List ℕ) (levelQ levelP nbPi d K : ℕ
     · rw [if_neg hin, if_neg hin]
       obtain ⟨hv, hq⟩ := hTQ x hx
       obtain ⟨h1, h2⟩ := ha x hx hin
-      rw [nttStd_unreduced hv hK (M (Q.getD x 0)) (by rw [hq]; exact h1) _ h2, hq]
+      rw [nttStd_unreduced hv (M (Q.getD x 0)) (by rw [hq]; exact h1) _ h2, hq]
   · intro j hj
     rw [row_map_range _ _ j (by omega)]
     obtain ⟨hv, hq⟩ := hTP j hj
     obtain ⟨h1, h2⟩ := hb j hj
-    rw [nttStd_unreduced hv hK (M (P.getD j 0)) (by rw [hq]; exact h1) _ h2, hq]
+    rw [nttStd_unreduced hv (M (P.getD j 0)) (by rw [hq]; exact h1) _ h2, hq]
 
 end Lattigo.Decomp
 
